@@ -8,6 +8,7 @@ func sprint(v any) string { return fmt.Sprint(v) }
 type Options struct {
 	PreemptBound int // max preemptions per execution (switching away from a thread that could continue)
 	DataBound    int // max non-default data choices per execution
+	MaxFree      int // max non-default FREE scheduling choices per execution (which thread runs after a block or exit); 0 = unlimited
 	Horizon      int // max choice points per execution (0: default)
 	Shard        int // this process explores the subtrees k (numbered in DFS order at depth SplitDepth) with k % Shards == Shard
 	Shards       int
@@ -69,7 +70,7 @@ func Explore(o Options, mk func() (main func(), done func(x *Exec))) Stats {
 			st.Divergences++
 			return
 		}
-		pre, dat := 0, 0
+		pre, dat, fre := 0, 0, 0
 		for i := 0; i < len(prefix); i++ {
 			s := x.Steps[i]
 			if s.Chosen != 0 {
@@ -77,6 +78,8 @@ func Explore(o Options, mk func() (main func(), done func(x *Exec))) Stats {
 					dat++
 				} else if !s.Free {
 					pre++
+				} else {
+					fre++
 				}
 			}
 		}
@@ -110,6 +113,12 @@ func Explore(o Options, mk func() (main func(), done func(x *Exec))) Stats {
 					}
 				case !s.Free:
 					if pre+1 > o.PreemptBound {
+						continue
+					}
+				default:
+					// with several threads that block often (pipes) the free alternatives alone grow
+					// exponentially; they can be bounded separately
+					if o.MaxFree > 0 && fre+1 > o.MaxFree {
 						continue
 					}
 				}
